@@ -210,7 +210,7 @@ def subchecks():
             name="tee",
             run_case=run_case,
             strategy=lambda tier: tee_scenario(tier),
-            examples={"quick": 2000, "thorough": 150000},
+            examples={"quick": 6000, "thorough": 150000},
             case_timeout=20.0,
         )
     ]
